@@ -37,14 +37,14 @@ use hook::{KadRequestMsg as Req, KadResponseMsg as Resp};
 
 pub const META: Meta = Meta {
     level: "exploration",
-    rule: "round-trip: every request kind (Ping, FindNode, GetProviders, GetValue, AddProvider, PutValue) and response kind (Pong, FindNode, GetProviders, GetValue, PutValue) over keys {empty,1 byte,32 bytes}, a 6-peer alphabet (0-2 addresses: plain, with own /p2p, with foreign /p2p, empty multiaddr; all 4 connection types), peer lists of length <=2 (quick) / <=3 (thorough), records over 3 keys x 3 values x {no publisher, publisher} x expiry {none, 1 s, 90.5 s, u32::MAX s}; hostile: an invalid multiaddr injected at every address position of every peer-carrying base message (expected value known), a structured enumeration of malformed protobuf messages (types, peer ids, connection types, publishers, ttl out of range), every single-byte mutation (8 bit flips + 0xff quick / all 255 xor masks thorough) of ~260 base encodings fed to both decoders, and every byte string of length <=3 (quick) / <=4 raw, <=5 framed (thorough) over a 14-byte alphabet, raw and as a frame body; length prefixes at / above the 16 KiB packet limit and over-long varints. Non-trivial = distinct messages carrying at least one peer or a record, plus distinct hostile inputs that were rejected or decoded (not merely 'need more bytes').",
+    rule: "round-trip: every request kind (Ping, FindNode, GetProviders, GetValue, AddProvider, PutValue) and response kind (Pong, FindNode, GetProviders, GetValue, PutValue) over keys {empty,1 byte,32 bytes}, a 6-peer alphabet (0-2 addresses: plain, with own /p2p, with foreign /p2p, empty multiaddr; all 4 connection types), peer lists of length <=2 (quick) / <=3 (thorough), records over 3 keys x 3 values x {no publisher, publisher} x expiry {none, 1 s, 90.5 s, u32::MAX s}; hostile: an invalid multiaddr injected at every address position of every peer-carrying base message (expected value known), a structured enumeration of malformed protobuf messages (types, peer ids, connection types, publishers, ttl out of range), every single-byte mutation (8 bit flips + 0xff quick / all 255 xor masks thorough) of ~260 base encodings fed to both decoders, and every byte string of length <=3 (quick) / <=4 raw, <=5 framed (thorough) over a 14-byte alphabet, raw and as a frame body; length prefixes at / above the 16 KiB packet limit and over-long varints; PutValue request / GetValue response / PutValue response with body sizes {4096,16384,65536} -1/0/+1 written to and read from the real Framed streams of ProtocolConfig::upgrade_outbound / upgrade_inbound (requests outbound->inbound, responses inbound->outbound) under max_packet_size {default, 4096, 65536}. Non-trivial = distinct messages carrying at least one peer or a record, plus distinct hostile inputs that were rejected or decoded (not merely 'need more bytes').",
     explanation: "Complete enumeration (E3) of the stated message alphabet through the real codecs: real encoding == independent reference encoding (kit::pb following dht.proto), decode(encode(m)) == normalise(m), re-encoding the normal form is a fixpoint; fault enumeration of the recorded encodings: no panic, complete frames never stall, every decoded message is stable under encode->decode.",
     assumptions: &[
         "virtual clock frozen during a case (expiry = now + whole seconds is exact)",
         "record lifetimes in [1 s, u32::MAX s]; sub-second and >= 2^32 s lifetimes are C42",
         "value/key interiors are represented by lengths {0,1,32/40}",
         "prost and unsigned-varint are trusted for the byte-level parsing they do",
-        "messages fit the configured max_packet_size (16 KiB default); larger ones are rejected by the receiver by design",
+        "a message fits when its protobuf body (without the length prefix) is <= the configured max_packet_size; larger ones must be rejected by the reader",
     ],
 };
 
@@ -687,6 +687,89 @@ fn encode_base(cx: &mut Codecs, t: &TMsg) -> Result<Vec<u8>, String> {
     }
 }
 
+// ---------------------------------------------------------------- packet-size limit through the real upgrades
+
+/// kinds of value-carrying messages: 0 = PutValue request, 1 = GetValue response, 2 = PutValue response
+fn sized_msg(kind: u8, value_len: usize) -> TMsg {
+    let value: Vec<u8> = (0..value_len).map(|i| (i % 251) as u8).collect();
+    let key = vec![0x07];
+    match kind {
+        0 => TMsg::ReqPutValue { record: TRecord { key, value, publisher: Some(1), expires_ms: Some(60_000) } },
+        1 => TMsg::ResGetValue { record: Some(TRecord { key, value, publisher: None, expires_ms: None }), closer: vec![peer_alphabet()[1].clone()] },
+        _ => TMsg::ResPutValue { key, value },
+    }
+}
+/// value length for which the *reference* encoding of the message body is exactly `target` bytes
+fn value_len_for(kind: u8, target: usize) -> Option<usize> {
+    // body length grows by 1 per value byte except at varint boundaries: converge in a few steps
+    let mut v = target.saturating_sub(100);
+    for _ in 0..8 {
+        let len = wire(&sized_msg(kind, v)).body().len();
+        if len == target {
+            return Some(v);
+        }
+        v = (v + target).checked_sub(len)?;
+    }
+    None
+}
+
+/// One message through the real upgrade streams: requests are written to the `Framed` that
+/// `ProtocolConfig::upgrade_outbound` builds and read from the one `upgrade_inbound` builds,
+/// responses the other way round; both ends configured with `max` (None = default 16 KiB).
+/// Oracle: body length (independent encoder) <= configured limit => arrives as the same message;
+/// above the limit => the reader reports an error.
+fn size_case(kind: u8, value_len: usize, max: Option<usize>) -> Result<&'static str, String> {
+    use futures::io::Cursor;
+    use futures::{SinkExt, StreamExt};
+    use kit::tasks::run_ready;
+    let t = sized_msg(kind, value_len);
+    let name = t.kind();
+    let now = Instant::now();
+    let body_len = wire(&t).body().len();
+    let limit = max.unwrap_or(16 * 1024);
+    let cfg = max.map_or("default".to_string(), |m| m.to_string());
+    let want = normalise(&t, &mut NormStats::default());
+    let verdict = |got_ok: Option<bool>, detail: String| -> Result<&'static str, String> {
+        // got_ok: Some(true) = same message arrived, Some(false) = something else arrived, None = error
+        match (body_len <= limit, got_ok) {
+            (true, Some(true)) => Ok("fits-roundtrip"),
+            (false, None) => Ok("over-limit-rejected"),
+            (true, _) => Err(format!("fitting-message-not-delivered:{name} :: max_packet_size {cfg}: a {name} of {body_len} bytes (<= limit {limit}) written to the real upgrade stream does not arrive: {detail}")),
+            (false, _) => Err(format!("limit-not-enforced:{name} :: max_packet_size {cfg}: a {name} of {body_len} bytes (> limit {limit}) was accepted by the reader: {detail}")),
+        }
+    };
+    if t.is_req() {
+        let mut w = hook::outbound_framed(Cursor::new(Vec::new()), max);
+        match run_ready(w.send(real_req(&t, now).unwrap()), 64) {
+            Some(Ok(())) => {}
+            other => return Err(format!("send-failed:{name} :: {other:?}")),
+        }
+        let bytes = w.into_inner().into_inner();
+        let mut r = hook::inbound_framed(Cursor::new(bytes), max);
+        match run_ready(r.next(), 64) {
+            Some(Some(Ok(m))) => verdict(Some(m == real_req(&want, now).unwrap()), "decoded".into()),
+            Some(Some(Err(e))) => verdict(None, format!("reader error: {e}")),
+            other => verdict(None, format!("reader: {:?}", other.map(|o| o.map(|r| r.map(|_| ()))))),
+        }
+    } else {
+        let mut w = hook::inbound_framed(Cursor::new(Vec::new()), max);
+        match run_ready(w.send(real_resp(&t, now).unwrap()), 64) {
+            Some(Ok(())) => {}
+            other => return Err(format!("send-failed:{name} :: {other:?}")),
+        }
+        let bytes = w.into_inner().into_inner();
+        let mut r = hook::outbound_framed(Cursor::new(bytes), max);
+        match run_ready(r.next(), 64) {
+            Some(Some(Ok(m))) => verdict(Some(m == real_resp(&want, now).unwrap()), "decoded".into()),
+            Some(Some(Err(e))) => verdict(None, format!("reader error: {e}")),
+            other => verdict(None, format!("reader: {:?}", other.map(|o| o.map(|r| r.map(|_| ()))))),
+        }
+    }
+}
+
+const SIZE_CONFIGS: [Option<usize>; 3] = [None, Some(4096), Some(65536)];
+const SIZE_BOUNDARIES: [usize; 3] = [4096, 16 * 1024, 65536];
+
 pub fn run(ctx: &Ctx) -> Outcome {
     if let Some(case) = &ctx.replay {
         let mut out = Outcome::default();
@@ -695,7 +778,7 @@ pub fn run(ctx: &Ctx) -> Outcome {
     }
     let mut out = mc::workers(ctx, 8, work);
     // ---- vacuity guards (on the merged outcome)
-    for k in ["rt_messages", "rt_addr_p2p_appended", "rt_addr_skipped", "rt_expiry_floored", "inject_cases", "mut_err", "mut_need_more", "mut_ok_same", "mut_ok_diff", "str_err", "str_ok", "struct_err", "struct_ok", "limit_err", "limit_ok_at_max"] {
+    for k in ["rt_messages", "rt_addr_p2p_appended", "rt_addr_skipped", "rt_expiry_floored", "inject_cases", "mut_err", "mut_need_more", "mut_ok_same", "mut_ok_diff", "str_err", "str_ok", "struct_err", "struct_ok", "limit_err", "limit_ok_at_max", "size_fits-roundtrip", "size_over-limit-rejected", "size_above_16k_fits"] {
         if out.get(k) == 0 {
             out.machinery(format!("vacuity: counter {k} is zero"));
         }
@@ -859,6 +942,34 @@ fn work(ctx: &Ctx) -> Outcome {
     };
     strings(raw_len, false, &mut out, &mut i);
     strings(framed_len, true, &mut out, &mut i);
+    // ---- 7. configured max_packet_size through the real upgrade streams, both directions
+    if ctx.worker.map_or(true, |w| w.0 == 0) {
+        for max in SIZE_CONFIGS {
+            for kind in 0..3u8 {
+                for b in SIZE_BOUNDARIES {
+                    for target in [b - 1, b, b + 1] {
+                        let Some(v) = value_len_for(kind, target) else {
+                            out.machinery(format!("no value length gives a body of {target} bytes for kind {kind}"));
+                            continue;
+                        };
+                        out.evaluations += 1;
+                        let case = json!({"kind":"size","msg_kind":kind,"value_len":v,"max":max});
+                        match mc::catch(|| size_case(kind, v, max)).unwrap_or_else(|p| Err(format!("upgrade-stream-panic :: {p}"))) {
+                            Ok(class) => {
+                                out.count(&format!("size_{class}"), 1);
+                                if class == "fits-roundtrip" && target > 16 * 1024 {
+                                    out.count("size_above_16k_fits", 1);
+                                }
+                                out.nontrivial(&format!("sz{kind}.{target}.{max:?}"));
+                            }
+                            Err(m) => out.violation(mc::bfs::signature_of(&m), m, case),
+                        }
+                    }
+                }
+            }
+        }
+        out.sample(json!({"kind":"size","configs":["default","4096","65536"],"body_sizes":"{4096,16384,65536} -1/0/+1","messages":["req-put-value","res-get-value","res-put-value"]}));
+    }
     // ---- 6. length prefixes around the packet limit (16 KiB) and over-long varints
     if ctx.worker.map_or(true, |w| w.0 == 0) {
         const MAX: u64 = 16 * 1024;
@@ -916,6 +1027,14 @@ fn replay(case: &Value, out: &mut Outcome) {
             }
             Err(e) => errs.push(format!("bad replay case: {e}")),
         },
+        Some("size") => {
+            let kind = case["msg_kind"].as_u64().unwrap_or(0) as u8;
+            let v = case["value_len"].as_u64().unwrap_or(0) as usize;
+            let max = case["max"].as_u64().map(|m| m as usize);
+            if let Err(m) = mc::catch(|| size_case(kind, v, max)).unwrap_or_else(|p| Err(format!("upgrade-stream-panic :: {p}"))) {
+                errs.push(m);
+            }
+        }
         Some("bytes") => {
             let bytes: Vec<u8> = serde_json::from_value(case["bytes"].clone()).unwrap_or_default();
             if let Err(m) = hostile_case(&mut cx, case["req_side"].as_bool().unwrap_or(true), &bytes) {
